@@ -398,6 +398,8 @@ impl<'a, R: AsyncRead + Unpin, W: AsyncWrite + Unpin> Request<'a, R, W> {
 
             // Parser::stream_buffer should never fill when the active stream is None
             debug_assert!(self.parser.stream_buffer().is_empty());
+            // Send Parser::output_buffer before waiting for the FastCGI client to send more input
+            std::future::poll_fn(|cx| Pin::new(&mut *self).poll_output(cx)).await?;
             self.parser.compress();
             read = self.input.read(self.parser.input_buffer()).await?;
             if read == 0 {
@@ -530,7 +532,9 @@ impl<'a, R: AsyncRead + Unpin, W: AsyncWrite + Unpin> Request<'a, R, W> {
                 return Poll::Ready(Ok(status.stream));
             }
 
-            // Both stream and protocol data buffers are empty here
+            // Both stream and protocol data buffers are empty here. Send any output the
+            // Parser just generated before waiting for the FastCGI client to send more input.
+            ready!(Pin::new(&mut *this).poll_output(cx))?;
             this.parser.compress();
             let buf = this.parser.input_buffer();
             read = ready!(Pin::new(&mut this.input).poll_read(cx, buf))?;
@@ -695,13 +699,10 @@ impl Token {
         output: &mut W,
     ) -> io::Result<stream::Parser<'a>> {
         use futures_util::{AsyncReadExt, AsyncWriteExt};
+        // Perform an initial `Parser::parse` without new input: the parser may have been
+        // handed buffered protocol data by the previous request's `stream::Parser`.
+        let mut read = 0;
         loop {
-            let read = input.read(parser.input_buffer()).await?;
-            if read == 0 {
-                // Client-initiated connection shutdown
-                return Err(io::ErrorKind::ConnectionReset.into());
-            }
-
             let status = parser.parse(read);
             if !status.output.is_empty() {
                 output.write_all(status.output).await?;
@@ -709,6 +710,12 @@ impl Token {
             }
             if status.done {
                 return parser.into_stream_parser().map_err(Into::into);
+            }
+
+            read = input.read(parser.input_buffer()).await?;
+            if read == 0 {
+                // Client-initiated connection shutdown
+                return Err(io::ErrorKind::ConnectionReset.into());
             }
         }
     }
